@@ -268,6 +268,65 @@ func RunSelftest(opt Options, spec *PropertySpec) map[string]interface{} {
 	}
 }
 
+// BCECrossCheck compares the compiler's list of bounds checks it could not
+// eliminate (-d=ssa/check_bce) inside the analysed functions with the
+// obligations the checker generated: a compiler-reported check on a line
+// with no obligation means the obligation enumerator missed an instruction.
+func BCECrossCheck(opt Options, rep *Report) (map[string]interface{}, []string) {
+	if len(rep.RegionSpans) == 0 {
+		return nil, nil
+	}
+	cmd := exec.Command("go", "build", "-gcflags=-d=ssa/check_bce/debug=1", "./client", "./state")
+	cmd.Dir = opt.Repo
+	cmd.Env = append(os.Environ(), "GOFLAGS=-mod=mod", "GOPROXY=off", "GOSUMDB=off", "GOTOOLCHAIN=local", "GOWORK=off")
+	b, _ := cmd.CombinedOutput()
+	total, inRegion, matched := 0, 0, 0
+	var missing []string
+	seen := map[string]bool{}
+	for _, l := range strings.Split(string(b), "\n") {
+		if !strings.Contains(l, "Found IsInBounds") && !strings.Contains(l, "Found IsSliceInBounds") {
+			continue
+		}
+		parts := strings.SplitN(strings.TrimPrefix(l, "./"), ":", 4)
+		if len(parts) < 3 {
+			continue
+		}
+		file := parts[0]
+		var line int
+		fmt.Sscanf(parts[1], "%d", &line)
+		total++
+		// which package dir? compiler prints paths relative to the package directory or to cwd
+		cands := []string{file, "client/" + file, "state/" + file}
+		for _, sp := range rep.RegionSpans {
+			hit := false
+			for _, cf := range cands {
+				if cf == sp.File && line >= sp.Start && line <= sp.End {
+					hit = true
+					key := fmt.Sprintf("%s:%d", sp.File, line)
+					if seen[key] {
+						break
+					}
+					seen[key] = true
+					inRegion++
+					if rep.ObLines[key] {
+						matched++
+					} else {
+						missing = append(missing, key+" ("+sp.Func+")")
+					}
+				}
+			}
+			if hit {
+				break
+			}
+		}
+	}
+	sort.Strings(missing)
+	return map[string]interface{}{
+		"rule":                  "every bounds check the Go compiler could not eliminate inside an analysed function must coincide (by line) with an obligation of the checker",
+		"compiler_checks_total": total, "lines_in_analysed_functions": inRegion, "matched_by_obligations": matched, "unmatched": missing,
+	}, missing
+}
+
 // CrossReference records generic-lint output (information only).
 func CrossReference(opt Options, spec *PropertySpec) map[string]interface{} {
 	out := map[string]interface{}{"note": "generic lints give no verdict; recorded as information only"}
